@@ -50,14 +50,6 @@ def post(ctx, cases, gores, model):
                                        "every recorded hook event is a step of Hs.step (lean/Ecal/Model/Debug.lean)",
                                        res[i][0], f"./check {ctx.prop} --replay <this file>", tag=tr)
             checklib.violation(ctx, rp, f"handshake trace not accepted by the model: {res[i][0]}")
-    # how often the code passed an active break point while stepping over / out (theorem
-    # stepping_passes_breakpoints: the code as it is; the property's wording has no such exception)
-    skip = [i for i in model if "skipbp" in model[i][1]]
-    cov["cases_passing_active_breakpoint_while_stepping"] = len(skip)
-    if skip:
-        ctx.notes.append(f"{len(skip)} cases: a thread stepping over/out of a call passed a line with an active break point "
-                         f"without suspending (model and code agree; see theorem stepping_passes_breakpoints), e.g. case "
-                         f"{decode(cases[skip[0]])}")
 
 
 SPEC = dict(
@@ -92,11 +84,11 @@ META = dict(
                "directed 'Continue inside the window' schedule"),
     level_text=("Proof (model): no reachable handshake state has the thread waiting with running=true; a Continue to a thread reported "
                 "suspended is accepted, completes and leaves the thread with enabled steps back to execution; StopThreads releases every "
-                "suspended thread (any number); suspension at active break points, no re-suspension on the same line after resume, "
+                "suspended thread (any number); suspension at an active break point whenever a thread in any debugging situation arrives from another line, no re-suspension on the same line after resume, "
                 "step-in/over/out targets for arbitrary balanced call nesting; the old code's lost resume is a reachable stuck state. "
                 "Transparency of the Go debugger (same result, log, variables) is tested metamorphically, not proved."),
     level_note=("Trusted: Lean kernel + propext/Classical.choice/Quot.sound; harness (recording wrapper, controller, comparison); Go's "
-                "sync primitives. Deviation recorded as a theorem: while stepping over/out of a call the code ignores break points inside it."),
+                "sync primitives."),
 )
 
 
